@@ -47,12 +47,23 @@ REWRITES = {
         (r"\btime\.After\(", "verifhook.After(", 0),
         (r"\btime\.NewTimer\(", "verifhook.NewTimer(", 0),
     ],
+    # the sensor backends use no timers today; one that is added runs on the virtual clock too (seed C09i)
+    "internal/sensors/hwmon.go": [
+        (r"\btime\.After\(", "verifhook.After(", 0),
+        (r"\btime\.NewTimer\(", "verifhook.NewTimer(", 0),
+    ],
+    "internal/sensors/file.go": [
+        (r"\btime\.After\(", "verifhook.After(", 0),
+        (r"\btime\.NewTimer\(", "verifhook.NewTimer(", 0),
+    ],
 }
 KEEPALIVE = {
     "internal/util/file.go": "\nvar _ = atomic.WriteFile\nvar _ = os.ReadFile\n",
     "internal/util/pid.go": "\nvar _ = time.Now\n",
     "internal/controller/controller.go": "\nvar _ = time.Sleep\n",
     "internal/monitor.go": "\nvar _ = time.Now\nvar _ = verifhook.Now\n",
+    "internal/sensors/hwmon.go": "\nvar _ = verifhook.Now\n",
+    "internal/sensors/file.go": "\nvar _ = verifhook.Now\n",
 }
 
 
